@@ -584,6 +584,43 @@ def verifyFull (E : Env) (i : Bool) (w : World) (c : Cred) (nutsType : Bool) : V
     | none => (.err "validation", w)
     | some _ => verify E i w c
 
+/-! ## the network event that delivers a revocation (vcr/ambassador.go) -/
+
+/-- what `store.StoreRevocation` does when the revocation has passed all checks: succeeds, fails with a context
+    time-out / cancellation wrapped `wraps` times with `%w` (the leia/bbolt backup store wraps, RegisterRevocation wraps
+    again), or fails with another storage error -/
+inductive StoreFault where
+  | none
+  | transient (wraps : Nat)
+  | other
+  deriving DecidableEq, Repr
+
+/-- `RegisterRevocation` with the outcome of the store call: "unable to store revocation: %w" -/
+def registerRevocationF (K : KeyEnv) (n : Node) (r : Revocation) (fault : StoreFault) : Res Node :=
+  match registerRevocation K n r with
+  | .ok n' =>
+    match fault with
+    | .none => .ok n'
+    | .transient _ => .err "store:context"     -- errors.Is(err, context.Canceled / DeadlineExceeded) holds through every %w
+    | .other => .err "store:other"
+  | .err e => .err e
+  | .panic s => .panic s
+
+/-- what the DAG notifier does with the event afterwards: done, retried later, or dropped for good (`dag.EventFatal`) -/
+inductive EventOutcome where
+  | done
+  | retry
+  | fatal
+  deriving DecidableEq, Repr
+
+/-- `handleNetworkRevocations` + `handleError`: context time-outs and cancellations (recognised with `errors.Is`, i.e. at
+    any wrapping depth) are recoverable; every other error is fatal -/
+def handleRevocationEvent (K : KeyEnv) (n : Node) (r : Revocation) (fault : StoreFault) : EventOutcome × Node :=
+  match registerRevocationF K n r fault with
+  | .ok n' => (.done, n')
+  | .err e => if e == "store:context" then (.retry, n) else (.fatal, n)
+  | .panic _ => (.fatal, n)
+
 /-! ## histories on two nodes -/
 
 /-- what can happen in the two-node world. `entryTx` is the write half of some `Entry` call with whatever row its select
